@@ -337,3 +337,13 @@ def r7(ctx):
                         'stabilise, the later pop re-decides with the new value, may return None, and `pop(..).unwrap()` then traps every heartbeat' % (name, fld, w.short))
             if not hit:
                 ctx.ok('R7', 'interference:%s@%s' % (fld, name), '', '`%s` cannot write `%s`' % (name, fld), nontrivial=bool(wroots))
+
+
+# plumbing between the interface and the analysed functions (rules/plumbing.py)
+_run_before_plumbing = run
+
+
+def run(ctx):
+    _run_before_plumbing(ctx)
+    from rules import plumbing
+    plumbing.init_applies_config(ctx, 'R5', fields=())
